@@ -679,7 +679,8 @@ void QXmppTransferOutgoingJob::_q_sendData()
     }
 
     // check whether we have written the whole file
-    if (d->fileInfo.size() && d->done >= d->fileInfo.size()) {
+    // (without a known size, the end of a random-access device is the end of the file)
+    if (d->fileInfo.size() ? d->done >= d->fileInfo.size() : (!d->iodevice->isSequential() && d->iodevice->atEnd())) {
         if (!d->socksSocket->bytesToWrite()) {
             terminate(QXmppTransferJob::NoError);
         }
